@@ -57,6 +57,7 @@ def run(res, tier, seed, replay):
     for cid, site, N, ka, kb, d in cases:
         case = dict(id=cid, site=site, N=N, calls_in_first_lifetime=ka, calls_in_second_lifetime=kb, second_thread_starts_after_ms=0, first_holds_ms=d)
         o = obs.get(cid, {})
+        if str(o.get("CHILD", ["?"])[0]).startswith("skipped"): continue
         if "OVERLAP" not in o or o.get("CHILD", ["?"])[0] != "exit:0":
             res.violation("two-thread run of one call site did not complete (crash, abort or deadlock)", case, o); continue
         got = {x.split("=", 1)[0]: dict(y.split("=", 1) for y in x.split("=", 1)[1].split(",")) for x in o["OVERLAP"]}
